@@ -21,11 +21,14 @@ BINARY = ["union", "concatenate", "intersection", "shuffle_product", "right_quot
 UNARY = ["kleene_star", "option", "reverse", "eliminate_lambda"]
 OPERATORS = {"operator_+": "concatenate", "operator_|": "union", "operator_&": "intersection"}
 
-RULE = ("fixed corpus (minimal left_quotient reproducer; 9 hand-written corner operands, every operation on every "
+RULE = ("fixed corpus (reproducers of the fixed findings left_quotient MissingStateError and nfa_stray_transition_row; "
+        "12 hand-written corner operands incl. 3 with stray rows, every operation on every "
         "ordered pair) then random operand pairs from gen.rand_nfa_def (1-4 states, 1-5 for a quarter of the thorough tier, alphabets whose union has <= 3 "
         "symbols: equal / nested / permuted / disjoint; 7 state-name pools with both-int-from-0 forced often; forced "
         "shapes: no final state, single non-final state without rows, single final state without rows, universal "
-        "one-state loop, epsilon edges and cycles, states without rows) x {union, concatenate, intersection, "
+        "one-state loop, epsilon edges and cycles, states without rows; about a third of the pairs have an operand with "
+        "one or two transition rows keyed by a name that is not a state - half of them named like the fresh state of "
+        "kleene_star/option/reverse) x {union, concatenate, intersection, "
         "shuffle_product, right_quotient, left_quotient, +, |, &} and {kleene_star, option, reverse, eliminate_lambda} "
         "on each operand, then random expression trees of depth 2 (an operand is the implementation's result of an "
         "earlier operation, itself checked as a case). Every case: implementation result vs Coq model (valid + exact "
@@ -305,7 +308,7 @@ class Runner:
                                        f"{base} of the operand languages {'contains' if e else 'does not contain'} it "
                                        f"({len(bad)} of {len(words)} tested words differ)"))
             if base == "eliminate_lambda":
-                if any("" in row for row in r.transitions.values()):
+                if any("" in row for q, row in r.transitions.items() if q in r.states):
                     problems.append((True, "eliminate_lambda result still has an empty-string transition"))
                 reach, todo = {r.initial_state}, [r.initial_state]
                 while todo:
@@ -386,6 +389,13 @@ class Runner:
             flags.append((len(x.states) >= 2, empty, universal))
         if any("" in row for x in operands for row in x.transitions.values()):
             ctx.tally("operand_with_epsilon")
+        strays = [(x, stray_names(x)) for x in operands]
+        if any(sn for _, sn in strays):
+            ctx.tally("operand_with_stray_row")
+        if any(least_unused_nat(x.states) in sn for x, sn in strays):
+            ctx.tally("stray_row_named_like_fresh_state")
+        if out[0] == "ok" and isinstance(out[1], NFA) and stray_names(out[1]):
+            ctx.tally("result_keeps_stray_row")
         if any(f[1] for f in flags):
             ctx.tally("empty_language_operand")
         if any(f[2] for f in flags):
@@ -419,6 +429,7 @@ class Runner:
                                  "word": word, "observed": observed,
                                  "expected": f"an NFA whose language is the textbook {base} of the operand languages",
                                  "impl_outcome": out[2] if out[0] == "err" else "ok",
+                                 "stray_row_operand": any(stray_names(x) for x in operands),
                                  "model": repr(ans)[:600], "problems": [t for _, t in problems], "tags": list(tags)},
                           confirmed=confirmed)
 
@@ -443,7 +454,58 @@ def corner_operands():
              final_states={1}),
         dict(states={0, 1}, input_symbols={"a", "b"}, transitions={0: {"": {1}, "a": {0}}, 1: {"b": {1}}},
              initial_state=0, final_states={1}),
+    ] + stray_corpus()
+
+
+def stray_corpus():
+    """Reproducers of the fixed finding nfa_stray_transition_row (repaired by bd7ae94): a transition row keyed by
+    a name that is not a state; in the second one the name is the fresh state reverse/kleene_star/option allocate."""
+    return [
+        dict(states={0}, input_symbols={"a"}, transitions={0: {}, 5: {"a": {0}}}, initial_state=0, final_states={0}),
+        dict(states={0}, input_symbols={"a"}, transitions={0: {}, 1: {"a": {0}}}, initial_state=0, final_states={0}),
+        dict(states={0, 1}, input_symbols={"a", "b"},
+             transitions={0: {"a": {1}}, 1: {"": {0}}, 2: {"": {1}, "b": {0, 1}}, "x": {}}, initial_state=0,
+             final_states={1}),
     ]
+
+
+def least_unused_nat(states):
+    k = 0
+    while k in states:
+        k += 1
+    return k
+
+
+STRAY_NAMES = [97, "stray", (9, "z"), frozenset([41]), -7]
+
+
+def add_stray_rows(rng, d):
+    """Add one or two transition rows keyed by names outside `states` (valid for NFA.validate(): symbols from the
+    alphabet or the empty string, end states among the states).  Half of the time one name is the least natural
+    number not in `states`, i.e. the name of the fresh state of kleene_star / option / reverse."""
+    states = sorted(d["states"], key=enc.sort_key)
+    sigma = sorted(d["input_symbols"])
+    names = []
+    if rng.random() < 0.5:
+        names.append(least_unused_nat(d["states"]))
+    if not names or rng.random() < 0.4:
+        names.append(rng.choice([x for x in STRAY_NAMES if x not in d["states"]]))
+    trans = {q: {a: set(ts) for a, ts in row.items()} for q, row in d["transitions"].items()}
+    for nm in names:
+        row = {}
+        r = rng.random()
+        if r >= 0.15:       # 15 %: an empty stray row
+            for a in sigma + [""]:
+                if rng.random() < 0.55:
+                    row[a] = {rng.choice(states) for _ in range(rng.choice([1, 1, 2]))} if rng.random() < 0.9 else set()
+        trans[nm] = row
+    out = dict(d)
+    out["transitions"] = trans
+    return out
+
+
+def stray_names(n):
+    return [q for q in n.transitions if q not in n.states]
 
 
 ALPHA_PAIRS = [("a", "a"), ("ab", "ab"), ("ab", "ab"), ("abc", "abc"), ("01", "01"), ("é1", "é1"),
@@ -494,7 +556,13 @@ def rand_pair(rng, nmax):
     else:
         n1, _ = gen.pick_names(rng, nmax)
         n2, _ = gen.pick_names(rng, nmax)
-    return shaped_def(rng, s1, n1, nmax), shaped_def(rng, s2, n2, nmax)
+    da, db = shaped_def(rng, s1, n1, nmax), shaped_def(rng, s2, n2, nmax)
+    r = rng.random()
+    if r < 0.22:
+        da = add_stray_rows(rng, da)
+    if 0.12 < r < 0.34:
+        db = add_stray_rows(rng, db)
+    return da, db
 
 
 def all_ops_on_pair(run, A, B, tags=(), operators=True, unary=True):
@@ -544,28 +612,45 @@ def rand_tree(run, rng, nmax):
     run.submit(op, operands, ("composed_depth2",))
 
 
-# ---------------------------------------------------------------- known finding
-def known_stray_row(ctx):
-    """Open finding: a row keyed by a name outside `states` passes validate(), then union/concatenate raise
-    KeyError and reverse raises InvalidStateError."""
-    kw = dict(states={0}, input_symbols={"a"}, transitions={0: {}, 5: {"a": {0}}}, initial_state=0, final_states={0})
-    made = outcome(lambda: NFA(**kw))
-    if made[0] != "ok":
-        return      # the constructor now refuses the stray row: nothing left to reproduce
-    s = made[1]
+# ---------------------------------------------------------------- fixed finding (regression)
+def stray_regression(run):
+    """nfa_stray_transition_row (fixed by bd7ae94): the old reproducers run as ordinary cases - every operation
+    must return a valid NFA with the textbook language (the stray rows are unreachable, so they do not change the
+    operand's language)."""
     plain = NFA(states={0, 1}, input_symbols={"a"}, transitions={0: {"a": {1}}}, initial_state=0, final_states={1})
-    outs = {"reverse": outcome(lambda: s.reverse()), "union": outcome(lambda: s.union(plain)),
-            "concatenate": outcome(lambda: s.concatenate(plain))}
-    failing = {k: v[2] for k, v in outs.items() if v[0] == "err"}
-    if not failing:
-        return
+    for d in stray_corpus():
+        made = outcome(lambda: NFA(**d))
+        if made[0] != "ok":
+            continue        # the constructor refuses the stray row: nothing to run
+        s_ = made[1]
+        for op in UNARY:
+            run.submit(op, [s_], ("corpus", "fixed_finding_stray_row"))
+        for op in BINARY:
+            run.submit(op, [s_, plain], ("corpus", "fixed_finding_stray_row"))
+            run.submit(op, [plain, s_], ("corpus", "fixed_finding_stray_row"))
+    run.flush()
+
+
+# ---------------------------------------------------------------- open finding
+ELIM_STRAY = "eliminate_lambda_stray_row_dangling_target"
+
+
+def arm_known(ctx):
+    """Cases that are this open finding (and nothing else) are reported as KNOWN-FINDING, not as violations:
+    eliminate_lambda raising InvalidStateError on an operand that has a transition row of a non-state."""
     for k in ctx.known:
-        if k["id"] == "nfa_stray_transition_row" and k["status"] == "open":
-            ctx.report_known(k)
-            return
-    ctx.violation("an NFA with a transition row keyed by a non-state passes validate() but operations raise: "
-                  + ", ".join(f"{k} -> {v}" for k, v in sorted(failing.items())),
-                  {"kind": "stray_row", "def": repr(kw), "observed": failing})
+        if k["id"] == ELIM_STRAY:
+            k["_match"] = lambda rep: (rep.get("op") == "eliminate_lambda" and rep.get("stray_row_operand")
+                                       and rep.get("impl_outcome") == "InvalidStateError"
+                                       and len(rep.get("problems", ())) == 1)
+
+
+def known_elim_stray(run):
+    """The finding's own reproducer (a violation again once the entry is no longer open and it still fails)."""
+    x = NFA(states={0, 1}, input_symbols={"a"}, transitions={0: {}, 5: {"a": {1}}}, initial_state=0,
+            final_states={0})
+    run.submit("eliminate_lambda", [x], ("corpus", "known_finding_elim_stray"))
+    run.flush()
 
 
 # ---------------------------------------------------------------- exhaustive scope (thorough)
@@ -608,8 +693,24 @@ def exhaustive(run):
             for B in Bs:
                 for op in BINARY:
                     run.submit(op, [A, B], tags)
+    # stray rows: every member of N1 and N2f x stray name in {least unused natural number, 7} x stray row in
+    # {{'a': {0}}, {'': {0}}}
+    strays = []
+    for x in n1 + n2f:
+        for nm in (least_unused_nat(x.states), 7):
+            for row in ({"a": {0}}, {"": {0}}):
+                d = kwargs_of(x)
+                d["transitions"][nm] = row
+                strays.append(mk_nfa(d))
+    for x in strays:
+        for op in UNARY:
+            run.submit(op, [x], tags)
+        for y in n1:
+            for op in BINARY:
+                run.submit(op, [x, y], tags)
+                run.submit(op, [y, x], tags)
     run.flush()
-    return len(n1), len(n2), len(n2f)
+    return len(n1), len(n2), len(n2f), len(strays)
 
 
 # ---------------------------------------------------------------- entry points
@@ -617,8 +718,10 @@ def run(ctx):
     ctx.rule = RULE
     rng = ctx.rng
     runner = Runner(ctx)
-    known_stray_row(ctx)
-    # (i) minimal left_quotient reproducer
+    arm_known(ctx)
+    stray_regression(runner)
+    known_elim_stray(runner)
+    # (i) minimal left_quotient reproducer (fixed finding, must pass)
     A = NFA(states={0, 1}, input_symbols={"a"}, transitions={0: {"a": {1}}}, initial_state=0, final_states={1})
     B = NFA(states={0}, input_symbols={"a"}, transitions={}, initial_state=0, final_states=set())
     runner.submit("left_quotient", [A, B], ("corpus",))
@@ -641,7 +744,7 @@ def run(ctx):
         rand_tree(runner, rng, nmax)
     runner.flush()
     if ctx.tier == "thorough":
-        c1, c2, c2f = exhaustive(runner)
+        c1, c2, c2f, cs = exhaustive(runner)
         ctx.exhaustive = True
         ctx.exhaustive_scope = (
             "NFAs over {a} with states 0..n-1, initial state 0, a row for every state, row[q]['a'] any subset of the "
@@ -650,12 +753,16 @@ def run(ctx):
             "empty-string edges. Enumerated completely: kleene_star/option/reverse/eliminate_lambda on every member of "
             "N1 and N2; union/concatenate/intersection/shuffle_product/right_quotient/left_quotient on every ordered "
             "pair in N1xN1, N1xN2, N2xN1 and N2fxN2f (pairs of two 2-state automata that have empty-string edges are "
-            "not enumerated); words of length <= 5 for the oracle, exact language comparison by the model")
+            f"not enumerated); S = the {cs} automata obtained from a member of N1 or N2f by adding one transition row "
+            "keyed by a non-state (name = least unused natural number or 7; row = {'a': {0}} or {'': {0}}): the four "
+            "unary operations on every member of S and the six binary operations on SxN1 and N1xS; "
+            "words of length <= 5 for the oracle, exact language comparison by the model")
 
 
 def replay(ctx, case):
+    arm_known(ctx)
     if case.get("kind") == "stray_row":
-        known_stray_row(ctx)
+        stray_regression(Runner(ctx))
     elif case.get("kind") == "op":
         runner = Runner(ctx)
         operands = [mk_nfa(load_def(s)) for s in case["operands"]]
